@@ -222,7 +222,11 @@ class WebSocketApp:
             return
         while not self.stop_ping.wait(self.ping_interval) and self.keep_running is True:
             if self.sock:
-                self.last_ping_tm = time.time()
+                if self.last_pong_tm >= self.last_ping_tm:
+                    # The previous ping (if any) has been answered: time this
+                    # one. An unanswered ping keeps its time stamp, so that
+                    # the pings which follow it cannot postpone the timeout.
+                    self.last_ping_tm = time.time()
                 try:
                     _logging.debug("Sending ping")
                     self.sock.ping(self.ping_payload)
@@ -442,7 +446,10 @@ class WebSocketApp:
             elif op_code == ABNF.OPCODE_PING:
                 self._callback(self.on_ping, frame.data)
             elif op_code == ABNF.OPCODE_PONG:
-                self.last_pong_tm = time.time()
+                if self.last_pong_tm < self.last_ping_tm:
+                    # The answer to the outstanding ping. Other pongs
+                    # (unsolicited, or further answers) are not timed.
+                    self.last_pong_tm = time.time()
                 self._callback(self.on_pong, frame.data)
             elif op_code == ABNF.OPCODE_CONT and self.on_cont_message:
                 self._callback(self.on_data, frame.data, frame.opcode, frame.fin)
